@@ -10,7 +10,7 @@ import json
 from hypothesis import strategies as st
 
 from vlib import gen
-from vlib.core import Info, Sub, fail
+from vlib.core import Info, Sub, Violation, fail
 
 PROPERTY = "C14"
 LEVEL = "exploration"
@@ -116,6 +116,55 @@ nested_convertible_params = st.sampled_from([
 ])
 
 
+# dictionaries whose keys are not all strings: the JSON backend writes int/float/bool/None keys as their JSON spelling
+# ("JSON normalisation"); mixed key types cannot be ordered against each other
+_plain_keys = gen.pick(st.integers(-5, 5).map(lambda i: i * 3 + 100), st.sampled_from([None, True, False, 1.5, -2.25, 1e20]),
+                       st.text("abcxyz", min_size=1, max_size=3))
+
+
+def _distinct_when_written(d):
+    return len(set(json_key(k) for k in d)) == len(d)
+
+
+nonstring_key_dicts = st.dictionaries(_plain_keys, gen.json_values(2), min_size=1, max_size=4).filter(_distinct_when_written)
+nonstring_key_params = gen.pick(
+    nonstring_key_dicts, st.lists(nonstring_key_dicts, min_size=1, max_size=2),
+    st.dictionaries(st.sampled_from(["a", "b"]), nonstring_key_dicts, min_size=1, max_size=2),
+    st.sampled_from([{"name": 1, 2: 3}, {None: 0, "x": 1}, [{1: "a", "1.0": "b", True: "c"}], {"k": {0: 0, "z": {None: None}}}]),
+)
+
+
+def json_key(k):
+    if isinstance(k, str):
+        return k
+    if k is True:
+        return "true"
+    if k is False:
+        return "false"
+    if k is None:
+        return "null"
+    if isinstance(k, float):
+        return float.__repr__(k)
+    return str(k)
+
+
+def written_keys(v):
+    """What a JSON text keeps of the keys of nested dictionaries"""
+    if isinstance(v, (list, tuple)):
+        return [written_keys(x) for x in v]
+    if isinstance(v, dict):
+        return dict((json_key(k), written_keys(x)) for k, x in v.items())
+    return v
+
+
+def has_nonstring_keys(v):
+    if isinstance(v, (list, tuple)):
+        return any(has_nonstring_keys(x) for x in v)
+    if isinstance(v, dict):
+        return any(not isinstance(k, str) or has_nonstring_keys(x) for k, x in v.items())
+    return False
+
+
 scalar_params = gen.pick(st.integers(-3, 3), st.text(max_size=3), st.booleans(), st.floats(allow_nan=False, allow_infinity=False, width=16))
 rpcids = gen.pick(
     st.none(), st.just(""), st.just(0), st.just(0.0), st.just(-0.0),
@@ -132,7 +181,8 @@ flags = st.sampled_from([None, False, True])
 def message_cases(draw):
     kind = draw(st.sampled_from(["dumps", "dumps", "dump"]))
     method = draw(gen.pick(methods, methods, methods, bad_methods))
-    params = draw(gen.pick(good_params, good_params, good_params, scalar_params, convertible_params, nested_convertible_params))
+    params = draw(gen.pick(good_params, good_params, good_params, scalar_params, convertible_params, nested_convertible_params,
+                           nonstring_key_params))
     return {
         "kind": kind,
         "method": method,
@@ -149,7 +199,11 @@ def message_cases(draw):
 @st.composite
 def fault_cases(draw):
     return {
-        "kind": draw(st.sampled_from(["fault.dumps", "fault.dump", "fault.response", "fault.dumpmethod"])),
+        "kind": draw(st.sampled_from(["fault.dumps", "fault.dump", "fault.response", "fault.dumpmethod",
+                                      "fault.response-forced", "fault.dumpmethod-forced", "fault.error"])),
+        # an id handed to Fault.response()/Fault.dump() itself (non-empty string or non-zero number) replaces the Fault's own
+        "forced": draw(gen.pick(st.integers(1, 10 ** 6), st.integers(-10 ** 6, -1), st.text(gen.TEXT_ALPHABET, min_size=1, max_size=6),
+                                st.sampled_from([1.5, -0.25, 2 ** 53, "0", " "]))),
         "code": draw(gen.pick(st.integers(-40000, 40000), st.sampled_from([-32700, -32600, -32000, 0, 1]))),
         "message": draw(st.text(gen.TEXT_ALPHABET, max_size=8)),
         "data": draw(gen.pick(st.none(), gen.json_values(6))),
@@ -270,6 +324,10 @@ def oracle_message(case):
         msg = gen.norm(out)
 
     np = norm_sets(p) if holds_marker(params) else gen.norm(p)
+    if has_nonstring_keys(np):
+        classes.append("params:non-string-keys")
+        if case["kind"] == "dumps":
+            np = written_keys(np)
     if holds_marker(params):
         classes.append("params:nested-convertible")
     if resp:
@@ -342,9 +400,26 @@ def oracle_fault(case):
         elif kind == "fault.response":
             f = J.Fault(code, message, rpcid=rpcid, config=cfg, data=data)
             msg = gen.strict_json_loads(f.response(version=version))
+        elif kind == "fault.response-forced":
+            f = J.Fault(code, message, rpcid=rpcid, config=cfg, data=data)
+            rpcid = case["forced"]
+            msg = gen.strict_json_loads(f.response(rpcid, version) if case["resp"] else f.response(rpcid=rpcid, version=version))
+        elif kind == "fault.dumpmethod-forced":
+            f = J.Fault(code, message, rpcid=rpcid, config=cfg, data=data)
+            rpcid = case["forced"]
+            msg = gen.norm(f.dump(rpcid, version) if case["resp"] else f.dump(rpcid=rpcid, version=version))
+        elif kind == "fault.error":
+            # the error description on its own, then (unchanged by that) the response
+            f = J.Fault(code, message, rpcid=rpcid, config=cfg, data=data)
+            desc = f.error()
+            if not gen.strict_eq(gen.norm(desc), {"code": code, "message": message, "data": gen.norm(data)}):
+                fail("C14/fault-members", "Fault.error() is %r for code %r, message %r, data %r" % (desc, code, message, data), case)
+            msg = gen.norm(f.dump(version=version))
         else:
             f = J.Fault(code, message, rpcid=rpcid, config=cfg, data=data)
             msg = gen.norm(f.dump(version=version))
+    except Violation:
+        raise
     except Exception as ex:
         fail("C14/fault-raised", "error response construction raised %s: %s" % (type(ex).__name__, ex), case)
     err = {"code": code, "message": message}
